@@ -14,6 +14,8 @@ open(p, "w").write(s)
 rounds = {}
 for mp in sorted(glob.glob(HERE + "/seeded/C*/meta.json")) + sorted(glob.glob(HERE + "/seeded/round[2-9]/C*/meta.json")):
     m = json.load(open(mp))
+    if m.get("out_of_scope"):
+        continue
     rd = m.get("round", 1)
     runs = m.get("runs", [])
     first = any(r.get("exit") for r in (runs[0]["results"].values() if runs else []))
